@@ -194,6 +194,14 @@ func c15Run(w *mc.W, h c15History, observe bool) (stateKey string, nslots int) {
 				_ = s.k.String()
 			case "ecpub":
 				_, _ = s.k.ECPubKey()
+			case "ecpriv":
+				_, _ = s.k.ECPrivKey()
+			case "getters": // cheap accessors nobody expects to write
+				s.k.IsPrivate()
+				s.k.Depth()
+				s.k.ParentFingerprint()
+				s.k.IsForNet(netParams["mainnet"])
+				s.k.IsForNet(netParams["testnet3"])
 			case "address":
 				_, _ = s.k.Address(netParams[s.net])
 			default:
@@ -232,6 +240,30 @@ func c15Run(w *mc.W, h c15History, observe bool) (stateKey string, nslots int) {
 					ptrID[p] = id
 				}
 				fmt.Fprintf(&sb, " %s=#%d", name, id)
+			}
+			// every OTHER field of the struct, whatever it is called (a memo added by a change is
+			// implementation state too: histories that differ in it must not be merged)
+			v := reflect.ValueOf(s.k).Elem()
+			for fi := 0; fi < v.NumField(); fi++ {
+				name := v.Type().Field(fi).Name
+				if _, known := f[name]; known {
+					continue
+				}
+				fv := v.Field(fi)
+				switch fv.Kind() {
+				case reflect.Slice, reflect.Map:
+					fmt.Fprintf(&sb, " %s=len%d/nil%v", name, fv.Len(), fv.IsNil())
+				case reflect.Ptr, reflect.Interface, reflect.Func, reflect.Chan:
+					fmt.Fprintf(&sb, " %s=nil%v", name, fv.IsNil())
+				case reflect.Bool:
+					fmt.Fprintf(&sb, " %s=%v", name, fv.Bool())
+				case reflect.Int, reflect.Int8, reflect.Int16, reflect.Int32, reflect.Int64:
+					fmt.Fprintf(&sb, " %s=%d", name, fv.Int())
+				case reflect.Uint, reflect.Uint8, reflect.Uint16, reflect.Uint32, reflect.Uint64:
+					fmt.Fprintf(&sb, " %s=%d", name, fv.Uint())
+				default:
+					fmt.Fprintf(&sb, " %s=zero%v", name, fv.IsZero())
+				}
 			}
 		}
 		sb.WriteString("]")
@@ -341,7 +373,8 @@ func c15Menu(nslots int, maxSlots int) []c15Op {
 			ops = append(ops, c15Op{Op: "child", Slot: s, Arg: "s1"}, c15Op{Op: "child", Slot: s, Arg: "s2"})
 		}
 		ops = append(ops, c15Op{Op: "setnet", Slot: s, Arg: "testnet3"}, c15Op{Op: "setnet", Slot: s, Arg: "mainnet"},
-			c15Op{Op: "zero", Slot: s}, c15Op{Op: "string", Slot: s}, c15Op{Op: "ecpub", Slot: s}, c15Op{Op: "address", Slot: s})
+			c15Op{Op: "zero", Slot: s}, c15Op{Op: "string", Slot: s}, c15Op{Op: "ecpub", Slot: s}, c15Op{Op: "address", Slot: s},
+			c15Op{Op: "ecpriv", Slot: s}, c15Op{Op: "getters", Slot: s})
 	}
 	return ops
 }
@@ -350,7 +383,7 @@ func runC15(c *mc.Ctx) {
 	c04SelfTest()
 	depth := mc.Pick(c, 4, 5)
 	maxSlots := mc.Pick(c, 3, 4)
-	c.Rule(fmt.Sprintf("breadth-first search over all operation histories of depth <= %d on a pool of <= %d keys (menu: NewMaster x2, NewKeyFromString x2, NewExtendedKey, Child(0|2^31|two hardened indices with a short child scalar), Neuter, SetNet x2, Zero, String, ECPubKey, Address per slot); histories are merged only when the model state AND the implementation's buffer-sharing graph and memo flags (read by reflection) agree; every reached state is observed on all slots; non-trivial = states in which two live keys share a backing buffer or a key has been zeroed", depth, maxSlots))
+	c.Rule(fmt.Sprintf("breadth-first search over all operation histories of depth <= %d on a pool of <= %d keys (menu: NewMaster x2, NewKeyFromString x2, NewExtendedKey, Child(0|2^31|two hardened indices with a short child scalar), Neuter, SetNet x2, Zero, String, ECPubKey, ECPrivKey, Address, the cheap getters per slot); histories are merged only when the model state AND the implementation's buffer-sharing graph and memo flags (read by reflection) agree; every reached state is observed on all slots; non-trivial = states in which two live keys share a backing buffer or a key has been zeroed", depth, maxSlots))
 	c.Assume("reference BIP32 model correct (vectors 1-3 reproduced)")
 	c.Assume("operations applied to an already zeroed key are outside the statement and are not issued")
 
